@@ -28,6 +28,12 @@ pub struct LongCfg {
     pub klen: u32,
     /// workload 5: size of the initial population whose alternating leaves are then deleted
     pub pop: u32,
+    /// every n-th transaction is preceded by a write transaction that does the same work and is
+    /// then dropped without commit (0 = never): abandoned work must not cost space
+    pub drop_every: u32,
+    /// reader chain: one reader in three gets a twin opened on the same snapshot that closes
+    /// after one transaction, while the other lives on
+    pub twins: bool,
 }
 
 pub fn draw(seed: u64, thorough: bool, pagesize: u64) -> LongCfg {
@@ -48,6 +54,8 @@ pub fn draw(seed: u64, thorough: bool, pagesize: u64) -> LongCfg {
         workload,
         klen: if workload == 5 { 0 } else { klen },
         pop: *r.pick(&[300u32, 1200, 2000]),
+        drop_every: *r.pick(&[0u32, 0, 3, 5]),
+        twins: r.chance(1, 2),
         txs,
         keys: *r.pick(&[4u32, 16, 64]),
         vsize: *r.pick(&[16u32, 200, pagesize as u32, pagesize as u32 * 3 + 11]),
@@ -264,6 +272,8 @@ fn run(case: &Case, dir: &str) -> Verdict {
             chain_life: l["chain_life"].as_u64().unwrap_or(0) as u32,
             klen: l["klen"].as_u64().unwrap_or(0) as u32,
             pop: l["pop"].as_u64().unwrap_or(300) as u32,
+            drop_every: l["drop_every"].as_u64().unwrap_or(0) as u32,
+            twins: l["twins"].as_bool().unwrap_or(false),
         },
         None => draw(case.seed, thorough, case.pagesize),
     };
@@ -273,7 +283,7 @@ fn run(case: &Case, dir: &str) -> Verdict {
     let mut v = Verdict::default();
     v.extra_out = json!({"long": {"workload": lc.workload, "txs": lc.txs, "keys": lc.keys, "vsize": lc.vsize,
         "reopen_every": lc.reopen_every, "reader_from": lc.reader_from, "reader_to": lc.reader_to,
-        "chain_every": lc.chain_every, "chain_life": lc.chain_life, "klen": lc.klen, "pop": lc.pop}});
+        "chain_every": lc.chain_every, "chain_life": lc.chain_life, "klen": lc.klen, "pop": lc.pop, "drop_every": lc.drop_every, "twins": lc.twins}});
     let mut r = Rng::new(mix(case.seed, 0x77));
     let mut model = MBucket::default();
     let mut samples: Vec<Sample> = Vec::with_capacity(lc.txs as usize);
@@ -294,6 +304,7 @@ fn run(case: &Case, dir: &str) -> Verdict {
         let dbr = db.as_ref().unwrap();
         let mut reader: Option<(Tx, MBucket)> = None;
         let mut chain: std::collections::VecDeque<(Tx, MBucket, u32)> = Default::default();
+        let mut twins: Vec<Tx> = Vec::new();
         let mut err: Option<Violation> = None;
         while t < end {
             if lc.chain_every > 0 {
@@ -314,7 +325,15 @@ fn run(case: &Case, dir: &str) -> Verdict {
                 if err.is_some() {
                     break;
                 }
+                // twins opened one transaction ago close now, their sibling lives on
+                twins.clear();
                 if t % lc.chain_every == 0 {
+                    if lc.twins && t % 3 == 0 {
+                        if let Ok(Ok(tw)) = catch(|| dbr.tx(false)) {
+                            twins.push(tw);
+                            *v.counters.entry("twin_readers".into()).or_default() += 1;
+                        }
+                    }
                     match catch(|| dbr.tx(false)) {
                         Ok(Ok(tx)) => chain.push_back((tx, model.clone(), t)),
                         _ => {
@@ -367,6 +386,28 @@ fn run(case: &Case, dir: &str) -> Verdict {
                     }
                 }
             }
+            if lc.drop_every > 0 && t % lc.drop_every == 1 && !(lc.workload == 5 && t < 2) {
+                // the same work, abandoned: rolled back by dropping the transaction
+                let mut scratch = model.clone();
+                let mut r2 = Rng::new(mix(case.seed, 0xD809 + t as u64));
+                let res = catch(|| -> Result<(), jammdb::Error> {
+                    let tx = dbr.tx(true)?;
+                    one_tx(&tx, &mut scratch, &lc, t, &mut r2, ps)?;
+                    drop(tx);
+                    Ok(())
+                });
+                match res {
+                    Ok(Ok(())) => *v.counters.entry("abandoned_transactions".into()).or_default() += 1,
+                    Ok(Err(e)) => {
+                        err = Some(fail("result", "abandoned tx", format!("transaction {} (to be abandoned) failed: {}", t, e)));
+                        break;
+                    }
+                    Err(p) => {
+                        err = Some(fail("panic", "abandoned tx", format!("transaction {} (to be abandoned) panicked: {}", t, p)));
+                        break;
+                    }
+                }
+            }
             let mut m2 = model.clone();
             let log_from = simos::log_len();
             let res = catch(|| -> Result<(), jammdb::Error> {
@@ -408,9 +449,15 @@ fn run(case: &Case, dir: &str) -> Verdict {
         }
         drop(reader);
         drop(chain);
+        drop(twins);
         if let Some(e) = err {
-            // not C10's business: some other property's oracle
-            v.aborted = Some(e);
+            if e.oracle == "growth-snapshot" {
+                // "while a reader pins an old snapshot the pages it needs are retained"
+                v.violation = Some(e);
+            } else {
+                // not C10's business: some other property's oracle
+                v.aborted = Some(e);
+            }
             db = None;
             let _ = db;
             return v;
